@@ -312,6 +312,31 @@ def m_repeat_with(it, args, callee, depth):
     return ("iter", RepeatWithIt(args[0]))
 
 
+class TakeWhileIt(S.It):
+    def __init__(self, a, f):
+        self.a, self.f, self.done = a, f, False
+
+    def next(self, it, depth):
+        if self.done:
+            return None
+        x = self.a.next(it, depth)
+        if x is None:
+            return None
+        cell = A.Frame(None)
+        cell.locals[0] = x
+        keep = A.deref_all(it, it.invoke(self.f, [("ref", cell, 0, [])], depth))
+        if not isinstance(keep, int):
+            raise A.Undecided("take_while predicate returned an undecided value %r" % (str(keep)[:60],))
+        if not keep:
+            self.done = True
+            return None
+        return cell.locals[0]
+
+
+def m_take_while(it, args, callee, depth):
+    return ("iter", TakeWhileIt(S.as_iter(it, args[0]), args[1]))
+
+
 class SkipIt(S.It):
     def __init__(self, a, n):
         self.a, self.n = a, n
@@ -468,6 +493,7 @@ MODELS = {
     "$slice::<impl [T]>::chunks": m_windows(True),
     "$slice::<impl [T]>::chunks_exact": m_windows(True),
     "Iterator::skip": m_skip,
+    "Iterator::take_while": m_take_while,
     "Iterator::reduce": m_reduce,
     "$iter::sources::from_fn::from_fn": m_iter_from_fn,
     "$core::iter::from_fn": m_iter_from_fn,
